@@ -109,7 +109,12 @@ def gen(rng, tier):
         if mode in (3, 5) and k is None:
             k = b"k"
         vis = bytes(rng.choice(b"abcXYZ 01") for _ in range(rng.choice([0, 3, 39, 40, 41, 60]))) if rng.random() < 0.5 else None
-        cs.append(Case(f"fticks {mode} {opt(k)} {rng.choice([1, 2])} {rng.randrange(2)} {opt(user(rng))} {opt(st)} {opt(vis)}",
+        # a request whose User-Name the client block's rewriteUsername changed keeps the name as it was sent (raw octets): in a quarter of
+        # the cases there is one, with octets outside printable ASCII behind its last '@'
+        orig = ""
+        if rng.random() < 0.25:
+            orig = " orig=" + (b"u@" + bytes(rng.choice([10, 13, 9, 27, 127, 128, 255, 35, 61, 97, 46]) for _ in range(rng.randrange(1, 12)))).hex()
+        cs.append(Case(f"fticks {mode} {opt(k)} {rng.choice([1, 2])} {rng.randrange(2)} {opt(user(rng))} {opt(st)} {opt(vis)}{orig}",
                        kind="fticks", mode=mode, nt=(st is not None and mode >= 2)))
     for _ in range(1500 if tier == "quick" else 30000):
         st = bytes(x for x in station(rng) if x != 0)
